@@ -2,4 +2,6 @@
 # usage: tools/mutrun.sh <scratch-repo-dir> <PROP> [tier]   -- runs a check against a scratch copy of the repo
 # without touching /repo, /verif/evidence or the shared target dirs.
 D="$1"; P="$2"; T="${3:-quick}"
+# Cargo.lock is not tracked by the repository: a fresh worktree has none until cargo has run in it
+[ -f "$D/Cargo.lock" ] || cp /repo/Cargo.lock "$D/Cargo.lock"
 VERIF_REPO="$D" VERIF_TARGET="$D/.vt" VERIF_WORK="$D/.vw" VERIF_OUT="$D/.vout" python3 /verif/run_check.py "$P" --tier "$T"
